@@ -521,6 +521,15 @@ ServerEOF ==
     /\ UNCHANGED <<cfg, ssl, mwi, cparams, inq, eof, faulted, stmts, portals, skip, hq, h>>
 
 ---------------------------------------------------------------------------
+(* The public helper ErrorCode called directly (auth strategies do): one    *)
+(* ErrorResponse - an internal fatal error when the error is nil - and the  *)
+(* ReadyForQuery that ends the cycle.  Independent of the connection state. *)
+
+ApiErrorCode(isnil, e) ==
+    /\ emit' = <<Rv(IF isnil THEN ErrRecNil ELSE ErrRec(e)), Rv(MsgReady)>>
+    /\ UNCHANGED <<cfg, phase, ssl, mwi, cparams, inq, eof, faulted, stmts, portals, skip, hq, h>>
+
+---------------------------------------------------------------------------
 
 Preamble == DoStartup \/ DoSSLRequest \/ DoCancel \/ DoStartupReject
             \/ DoPassword \/ DoNotPassword
